@@ -5,6 +5,7 @@ them by that name, `x<n>` names a cookie that was never issued. UUIDs are `u<n>`
 -/
 import Driver.Text
 import Aldrin.Model.Broker.Step
+import Aldrin.Model.Broker.Handshake
 
 namespace Aldrin.Driver
 open Aldrin Aldrin.Broker
@@ -236,7 +237,18 @@ def brokerCmd (st : BState) (cmd : String) (args : List String) : Option (BState
   | "bstats", [] =>
     let s := st.b.stats
     some ({ st with b := { st.b with stats := { s with messagesSent := 0, messagesReceived := 0 } } },
-      s!"conns={s.numConnections} objs={s.numObjects} svcs={s.numServices} chans={s.numChannels} lsn={s.numBusListeners} sent={s.messagesSent} recv={s.messagesReceived}")
+      let b := st.b
+      let exact := s.numConnections == b.conns.length && s.numObjects == b.objs.length && s.numObjects == b.objUuids.length
+        && s.numServices == b.svcs.length && s.numServices == b.svcUuids.length && s.numChannels == b.channels.length
+        && s.numBusListeners == b.listeners.length
+      s!"conns={s.numConnections} objs={s.numObjects} svcs={s.numServices} chans={s.numChannels} lsn={s.numBusListeners} sent={s.messagesSent} recv={s.messagesReceived} gauges={if exact then "ok" else "BAD"}")
+  | "hs", [kind, major, minor] => do
+    let major ← major.toNat?
+    let minor ← minor.toNat?
+    let c2 ← match kind with | "new" => some true | "legacy" => some false | _ => none
+    match negotiate major minor c2 with
+    | some v => pure (st, s!"ok {v}")
+    | none => pure (st, "incompatible")
   | "bsnap", [] =>
     let b := st.b
     some (st, s!"conns={b.conns.length} obj_uuids={b.objUuids.length} objs={b.objs.length} svc_uuids={b.svcUuids.length} svcs={b.svcs.length} calls={b.calls.elems.length} channels={b.channels.length} listeners={b.listeners.length} introspection={b.introspection.length} iqueries={b.iqueries.elems.length}")
